@@ -1,8 +1,10 @@
 package main
 
 import (
+	"bytes"
 	"fmt"
 	"os"
+	"os/exec"
 	"path/filepath"
 	"runtime/debug"
 	"sort"
@@ -75,6 +77,63 @@ func fdsUnder(dir string) []string {
 	}
 	sort.Strings(out)
 	return out
+}
+
+// odChild opens dir and reads [first,last] in a child process; died: the child was killed by a fatal signal / runtime fault
+func odChild(dir string, first, last uint64) (out string, died bool) {
+	cmd := exec.Command(os.Args[0], "odsub", dir, fmt.Sprint(first), fmt.Sprint(last))
+	var buf bytes.Buffer
+	cmd.Stdout = &buf
+	cmd.Stderr = &buf
+	done := make(chan error, 1)
+	if err := cmd.Start(); err != nil {
+		return "setup-err " + err.Error(), false
+	}
+	go func() { done <- cmd.Wait() }()
+	select {
+	case <-done:
+	case <-time.After(60 * time.Second):
+		cmd.Process.Kill()
+		<-done
+		return "blocked", false
+	}
+	txt := buf.String()
+	if i := strings.Index(txt, "ODSUB "); i >= 0 {
+		line := txt[i+6:]
+		if j := strings.IndexByte(line, '\n'); j >= 0 {
+			line = line[:j]
+		}
+		return line, false
+	}
+	if len(txt) > 600 {
+		txt = txt[:600]
+	}
+	return txt, true
+}
+
+func init() {
+	extraCommands["odsub"] = func(args []string) int {
+		w, res := odOpen(args[0], 20*time.Second)
+		if w != nil {
+			func() {
+				defer func() {
+					if x := recover(); x != nil {
+						res = fmt.Sprintf("panic: %v", x)
+					}
+				}()
+				for idx := atoiU(args[1]); idx <= atoiU(args[2]); idx++ {
+					var l raft.Log
+					if err := w.GetLog(idx, &l); err != nil {
+						res = "ok/read-err"
+						break
+					}
+				}
+				w.Close()
+			}()
+		}
+		fmt.Println("ODSUB " + res)
+		return 0
+	}
 }
 
 func odBuild(base string, r *Rng) (*odTemplate, error) {
@@ -156,28 +215,28 @@ func suiteOpenDamage(seed uint64, tier string) *Report {
 		mustFail bool
 		desc     string
 		apply    func(dir string)
+		child    bool // open in a child process: damage to the BoltDB file itself can fault inside its memory map
 	}
 	var cases []dmg
 	wr := func(dir, name string, b []byte) { os.WriteFile(filepath.Join(dir, name), b, 0o644) }
 	for si, name := range t.sealed {
 		name := name
-		cases = append(cases, dmg{"sealed-missing", true, "delete sealed segment " + name, func(dir string) { os.Remove(filepath.Join(dir, name)) }})
+		cases = append(cases, dmg{class: "sealed-missing", mustFail: true, desc: "delete sealed segment " + name, apply: func(dir string) { os.Remove(filepath.Join(dir, name)) }})
 		for n := 0; n < 32; n++ {
 			if si > 0 && n%5 != int(seed%5) && n < 24 {
 				continue
 			}
 			n := n
-			cases = append(cases, dmg{"sealed-truncated-below-header", true, fmt.Sprintf("truncate sealed segment %s to %d bytes", name, n),
-				func(dir string) { wr(dir, name, t.files[name][:n]) }})
+			cases = append(cases, dmg{class: "sealed-truncated-below-header", mustFail: true, desc: fmt.Sprintf("truncate sealed segment %s to %d bytes", name, n), apply: func(dir string) { wr(dir, name, t.files[name][:n]) }})
 		}
 		other := t.sealed[(si+1)%len(t.sealed)]
 		if other != name {
-			cases = append(cases, dmg{"sealed-foreign-header", true, fmt.Sprintf("sealed segment %s gets the 32-byte header of %s", name, other), func(dir string) {
+			cases = append(cases, dmg{class: "sealed-foreign-header", mustFail: true, desc: fmt.Sprintf("sealed segment %s gets the 32-byte header of %s", name, other), apply: func(dir string) {
 				b := append([]byte(nil), t.files[name]...)
 				copy(b[:32], t.files[other][:32])
 				wr(dir, name, b)
 			}})
-			cases = append(cases, dmg{"sealed-foreign-content", true, fmt.Sprintf("sealed segment %s gets the whole content of %s", name, other), func(dir string) {
+			cases = append(cases, dmg{class: "sealed-foreign-content", mustFail: true, desc: fmt.Sprintf("sealed segment %s gets the whole content of %s", name, other), apply: func(dir string) {
 				wr(dir, name, t.files[other])
 			}})
 		}
@@ -196,15 +255,21 @@ func suiteOpenDamage(seed uint64, tier string) *Report {
 		switch kind {
 		case 0:
 			n := 32 + cr.Intn(len(t.files[target])-31)
-			cases = append(cases, dmg{"truncated-at-or-after-header", false, fmt.Sprintf("truncate %s to %d bytes", target, n), func(dir string) { wr(dir, target, t.files[target][:n]) }})
+			cases = append(cases, dmg{class: "truncated-at-or-after-header", mustFail: false, desc: fmt.Sprintf("truncate %s to %d bytes", target, n), apply: func(dir string) { wr(dir, target, t.files[target][:n]) }})
 		case 1, 2:
-			cases = append(cases, dmg{"mutated-segment", false, "mutate " + target, func(dir string) { wr(dir, target, mutateFile(cr, t.files[target])) }})
+			cases = append(cases, dmg{class: "mutated-segment", mustFail: false, desc: "mutate " + target, apply: func(dir string) { wr(dir, target, mutateFile(cr, t.files[target])) }})
 		default:
-			cases = append(cases, dmg{"mutated-meta-db", false, "damage wal-meta.db", func(dir string) {
+			sub := cr.Intn(4)
+			cut := cr.Intn(len(t.files["wal-meta.db"]))
+			desc := fmt.Sprintf("damage wal-meta.db (kind %d)", sub)
+			if sub == 0 {
+				desc = fmt.Sprintf("wal-meta.db truncated to %d of %d bytes", cut, len(t.files["wal-meta.db"]))
+			}
+			cases = append(cases, dmg{class: "mutated-meta-db", desc: desc, child: true, apply: func(dir string) {
 				b := append([]byte(nil), t.files["wal-meta.db"]...)
-				switch cr.Intn(4) {
+				switch sub {
 				case 0:
-					b = b[:cr.Intn(len(b))]
+					b = b[:cut]
 				case 1:
 					for j := 0; j < 1+cr.Intn(8); j++ {
 						b[cr.Intn(len(b))] ^= 1 << uint(cr.Intn(8))
@@ -221,12 +286,78 @@ func suiteOpenDamage(seed uint64, tier string) *Report {
 			}})
 		}
 	}
+	// the meta DB file cut short by whole pages (always exercised: the listed finding F1 lives here)
+	for n := 4096; n < len(t.files["wal-meta.db"]); n += 4096 {
+		n := n
+		cases = append(cases, dmg{class: "meta-db-truncated-pages", desc: fmt.Sprintf("wal-meta.db truncated to %d of %d bytes", n, len(t.files["wal-meta.db"])), child: true,
+			apply: func(dir string) { wr(dir, "wal-meta.db", t.files["wal-meta.db"][:n]) }})
+	}
+	// the stored metadata RECORD damaged inside an otherwise valid BoltDB file (bolt does not checksum data pages):
+	// every occurrence of the JSON record is altered the same way
+	rec := []byte(`{"NextSegmentID"`)
+	nrec := 6
+	if tier == "thorough" {
+		nrec = 40
+	}
+	for k := 0; k < nrec; k++ {
+		cr := r.Fork()
+		kind := k % 6
+		cases = append(cases, dmg{class: "meta-record-damaged", desc: fmt.Sprintf("metadata record inside wal-meta.db altered (kind %d)", kind), apply: func(dir string) {
+			b := append([]byte(nil), t.files["wal-meta.db"]...)
+			for off := 0; ; {
+				i := bytes.Index(b[off:], rec)
+				if i < 0 {
+					break
+				}
+				at := off + i
+				end := at
+				for end < len(b) && b[end] != 0 {
+					end++
+				}
+				switch kind {
+				case 0:
+					b[at] = '['
+				case 1:
+					b[at+1+cr.Intn(end-at-1)] ^= 1 << uint(cr.Intn(7))
+				case 2:
+					for j := at + (end-at)/2; j < end; j++ {
+						b[j] = 0
+					}
+				case 3:
+					copy(b[at:], []byte(`{"NextSegmentID":"x"`))
+				case 4:
+					for j := at; j < end; j++ {
+						b[j] = byte('a' + cr.Intn(26))
+					}
+				default:
+					b[end-1] = ','
+				}
+				off = end
+			}
+			wr(dir, "wal-meta.db", b)
+		}})
+	}
 	for _, c := range cases {
 		t.restore(work)
 		c.apply(work)
 		rep.Cases++
 		rep.Dist["class:"+c.class]++
 		steps := []string{fmt.Sprintf("directory with sealed segments %v and tail %s, entries %d..%d", t.sealed, t.tail, t.first, t.last), c.desc, "Open"}
+		if c.child {
+			out, died := odChild(work, t.first, t.last)
+			outcome := "child-" + strings.SplitN(out, ":", 2)[0]
+			if died {
+				add("Open (or a read) kills the process on a damaged meta DB file: a fault no caller can recover from", out, steps...)
+				outcome = "child-died"
+			} else if strings.HasPrefix(out, "panic") {
+				add("Open panicked on a damaged directory", out, steps...)
+			} else if out == "blocked" {
+				add("Open did not return on a damaged directory", out, steps...)
+			}
+			shapes[c.class+"/"+outcome] = true
+			rep.Dist["outcome:"+outcome]++
+			continue
+		}
 		gcOld := debug.SetGCPercent(-1) // finalizers of leaked *os.File would otherwise hide what a failed Open left open
 		w, res := odOpen(work, 20*time.Second)
 		if w == nil && strings.HasPrefix(res, "err") {
